@@ -42,7 +42,7 @@ class C12(P.Property):
                    "an unacknowledged request in flight when its connection ends may or may not have been applied"]
     probe_names = ["two_waiters_one_predecessor", "newcomer_during_cleanup", "waiter_closes_before_served", "predecessor_aborted",
                    "request_queued_while_waiting", "overlap_init_state_0", "overlap_init_state_1", "overlap_init_state_2",
-                   "three_overlapping", "overlap_longer_than_20s", "state_file_read_error", "other_service_connection", "pipelined_pair", "two_listeners"]
+                   "three_overlapping", "overlap_longer_than_20s", "state_file_read_error", "other_service_connection", "pipelined_pair", "two_listeners", "disk_full_error"]
 
     def setup(self):
         world.setup_frontend()
@@ -109,6 +109,10 @@ class C12(P.Property):
         if rng.random() < 0.15 and steps:
             # the wall clock is stepped before that step (NTP correction, VM resume): time.time() and new file stamps jump, loop time does not
             knobs["clock_steps"] = {str(rng.randrange(len(steps))): rng.choice([-3600.0, -5.0, -0.5, -3 * 86400.0, 3600.0, 9 * 86400.0])}
+        if "read_fault" not in knobs and rng.random() < 0.08:
+            # injected system-call failure: from this step on, one of the server's next writes / file creations fails with ENOSPC (disk full,
+            # once; optionally after part of the data was written).  The request that is hit may fail; nothing acknowledged may be lost
+            knobs["write_fault"] = {"step": rng.randrange(len(steps)), "skip": rng.choice([0, 0, 1, 2, 3, 5]), "torn": rng.random() < 0.5}
         if rng.random() < 0.12:
             # the server process serves through two listeners (two ports); connections of one service may arrive through either
             knobs["two_listeners"] = True
@@ -194,6 +198,9 @@ class C12(P.Property):
             rf = knobs.get("read_fault")
             if rf is not None and rf["step"] == si:
                 run.seam.fail_read = ("server", "service_meta", rf.get("skip", 0))
+            wf = knobs.get("write_fault")
+            if wf is not None and wf["step"] == si:
+                run.seam.fail_write = ["server", wf.get("skip", 0), wf.get("torn", False)]
             try:
                 if do == "open":
                     if a is None:
@@ -232,6 +239,7 @@ class C12(P.Property):
         for a in actors.values():
             await a.close()
         run.seam.fail_read = None  # faults stop here; what follows is the look at the outcome
+        run.seam.fail_write = None
         await asyncio.sleep(4)
         if knobs.get("gc_every"):
             world.gc_point()  # everything is closed: whatever finalizers exist run now, before the probe looks
@@ -368,6 +376,8 @@ class C12(P.Property):
         cfg_acks = ([out["acked_cfg"]] if out["acked_cfg"] else []) + [n for n, a in sorted(actors.items()) for _ in range(a.acks.count("config"))]
         edb_acks = ([out["acked_edb"]] if out["acked_edb"] else []) + [n for n, a in sorted(actors.items()) for _ in range(a.acks.count("upload_edb"))]
         probes.update(out.get("probes_extra") or {})
+        if run.sim.counters.get("write_error"):
+            probes["disk_full_error"] = 1
         if knobs.get("two_listeners") and len(set((knobs.get("ports") or {}).get(n, 8001) for n in actors if n != "D")) > 1:
             probes["two_listeners"] = 1
         want = 2 if edb_acks else 1 if cfg_acks else 0
@@ -464,7 +474,7 @@ class C12(P.Property):
     # ------------------------------------------------------------------ minimisation
     def simplifications(self, plan):
         k = plan["knobs"]
-        for key, val in (("skew", 1.0), ("bufsize", 8192), ("scheme", "CJJ14.PiBas"), ("net", dict(lo=0.01, hi=0.01)), ("gc_every", 0), ("big", False), ("read_fault", None), ("paths", None), ("mtime_gran", None), ("clock_steps", None), ("two_listeners", None), ("ports", None)):
+        for key, val in (("skew", 1.0), ("bufsize", 8192), ("scheme", "CJJ14.PiBas"), ("net", dict(lo=0.01, hi=0.01)), ("gc_every", 0), ("big", False), ("read_fault", None), ("paths", None), ("mtime_gran", None), ("clock_steps", None), ("two_listeners", None), ("ports", None), ("write_fault", None)):
             if k.get(key) != val:
                 yield dict(plan, knobs=dict(k, **{key: val}))
         if k["init_state"] > 0:
